@@ -117,7 +117,17 @@ class _Connector:
                     self.last_error or IOError("connection failed")
                 )
             return
-        stream, future = self.connect(af, addr)
+        try:
+            stream, future = self.connect(af, addr)
+        except Exception as e:
+            # The attempt failed synchronously (e.g. socket() or bind()
+            # raised). Count it as a failed attempt: this method also runs
+            # from callbacks, where an exception would only be logged and
+            # the future would never be resolved.
+            self.remaining -= 1
+            self.last_error = e
+            self.try_connect(addrs)
+            return
         self.streams.add(stream)
         future_add_done_callback(
             future, functools.partial(self.on_connect_done, addrs, af, addr)
